@@ -1064,6 +1064,13 @@ def _k2(ctx: Context) -> None:
                 continue
             # the value is built here, or by a helper function called here (then every return of the helper is a form site)
             sites = [(f, cfg, node, t, None)]
+            if t[0] == "phi" and isinstance(value, ast.Name):
+                # a local with several definitions (the result of a helper that the engine inlined: one definition per `return`
+                # of the helper): every definition is a form site, judged where it stands
+                du = T.du(cfg)
+                defs = [(dn, d) for dn, d in du.reaching(node.id, value.id) if d.kind == "assign" and not d.path]
+                if defs and len(defs) == len(t[1]):
+                    sites = [(f, cfg, cfg.nodes[dn], strip_sites(T.of(cfg, cfg.nodes[dn], d.value)), None) for dn, d in defs]
             if t[0] == "call" and t[1][0] == "glob" and t[1][1] in ctx.prog.functions and not t[3]:
                 g = ctx.prog.functions[t[1][1]]
                 if not g.is_async and not g.is_generator and not isinstance(g.node, ast.Lambda) and len(t[2]) <= len(g.pos_params):
